@@ -685,6 +685,230 @@ func c16Y2(l *core.Ledger) {
 	l.Check(len(hits) == 0, "C16-Y2", "generator/ambient-inputs", token.NoPos, fmt.Sprintf("%d function references scanned, none ambient", n), fmt.Sprintf("the generator reads ambient state: %v", hits))
 	// positive fixture: the rule can fire
 	l.Check(banned["time.Now"], "C16-Y2", "fixture/time.Now", token.NoPos, "fixture: time.Now is in the banned table", "fixture broken")
+	c16Y2state(l)
+}
+
+// c16Y2state: one plugin process generates every file of a protoc invocation.
+// Package-level variables that generation writes (caches, counters,
+// accumulators) carry state from one file to the next: the output for a file
+// then depends on which files came before it. Functions of the generator
+// package (the bundler, a dev tool, aside) must not assign to, insert into,
+// append to or delete from a package-level variable.
+func c16Y2state(l *core.Ledger) {
+	pk := l.Prog.Pkg(genPkgRel)
+	if pk == nil {
+		return
+	}
+	info := pk.TypesInfo
+	rootVar := func(e ast.Expr) *types.Var {
+		for {
+			switch x := e.(type) {
+			case *ast.ParenExpr:
+				e = x.X
+			case *ast.IndexExpr:
+				e = x.X
+			case *ast.SelectorExpr:
+				if id, ok := x.X.(*ast.Ident); ok {
+					if _, isPkg := info.Uses[id].(*types.PkgName); isPkg {
+						return nil
+					}
+				}
+				e = x.X
+			case *ast.StarExpr:
+				e = x.X
+			case *ast.Ident:
+				v, _ := info.Uses[x].(*types.Var)
+				if v != nil && v.Parent() == pk.Types.Scope() {
+					return v
+				}
+				return nil
+			default:
+				return nil
+			}
+		}
+	}
+	// input-dependence: an expression depends on the file being generated if it mentions a value
+	// of a protogen / protoreflect type (other than the output sink), or a parameter that some call
+	// site in the package feeds with such an expression. Writes that depend only on the
+	// generator's own static tables (an idempotent memo of a fixed table) carry nothing over.
+	isInputType := func(t types.Type) bool {
+		for {
+			switch x := t.(type) {
+			case *types.Pointer:
+				t = x.Elem()
+				continue
+			case *types.Slice:
+				t = x.Elem()
+				continue
+			case *types.Named:
+				if x.Obj().Pkg() == nil {
+					return false
+				}
+				path := x.Obj().Pkg().Path()
+				if strings.HasSuffix(path, "compiler/protogen") {
+					return x.Obj().Name() != "GeneratedFile" && x.Obj().Name() != "GoImportPath" && x.Obj().Name() != "GoIdent"
+				}
+				return strings.HasSuffix(path, "reflect/protoreflect") || strings.HasSuffix(path, "types/descriptorpb") || strings.HasSuffix(path, "types/pluginpb")
+			}
+			return false
+		}
+	}
+	declOf := map[types.Object]*ast.FuncDecl{}
+	for _, f := range pk.Syntax {
+		for _, d := range f.Decls {
+			if fd, ok := d.(*ast.FuncDecl); ok {
+				declOf[info.Defs[fd.Name]] = fd
+			}
+		}
+	}
+	var tainted func(e ast.Node, fd *ast.FuncDecl, depth int) bool
+	paramTainted := func(fd *ast.FuncDecl, v *types.Var, depth int) bool {
+		if depth > 3 {
+			return true
+		}
+		idx, i := -1, 0
+		for _, fl := range fd.Type.Params.List {
+			for _, nm := range fl.Names {
+				if info.Defs[nm] == types.Object(v) {
+					idx = i
+				}
+				i++
+			}
+		}
+		if idx < 0 {
+			return false
+		}
+		self := info.Defs[fd.Name]
+		hit := false
+		for _, f := range pk.Syntax {
+			var cur *ast.FuncDecl
+			ast.Inspect(f, func(nd ast.Node) bool {
+				if x, ok := nd.(*ast.FuncDecl); ok {
+					cur = x
+				}
+				ce, ok := nd.(*ast.CallExpr)
+				if !ok || idx >= len(ce.Args) {
+					return true
+				}
+				if id, ok := ce.Fun.(*ast.Ident); ok && info.Uses[id] == self && cur != nil && tainted(ce.Args[idx], cur, depth+1) {
+					hit = true
+				}
+				return true
+			})
+		}
+		return hit
+	}
+	tainted = func(e ast.Node, fd *ast.FuncDecl, depth int) bool {
+		hit := false
+		ast.Inspect(e, func(nd ast.Node) bool {
+			id, ok := nd.(*ast.Ident)
+			if !ok || hit {
+				return !hit
+			}
+			v, isVar := info.Uses[id].(*types.Var)
+			if !isVar {
+				return true
+			}
+			if isInputType(v.Type()) {
+				hit = true
+				return false
+			}
+			if v.Parent() == pk.Types.Scope() || v.IsField() || fd == nil || depth > 4 {
+				return true
+			}
+			// a plain parameter: what do the callers pass?
+			if paramTainted(fd, v, depth) {
+				hit = true
+				return false
+			}
+			// a local: what is it computed from?
+			ast.Inspect(fd.Body, func(m ast.Node) bool {
+				switch y := m.(type) {
+				case *ast.AssignStmt:
+					for i, lhs := range y.Lhs {
+						lid, ok := lhs.(*ast.Ident)
+						if !ok || (info.Defs[lid] != types.Object(v) && info.Uses[lid] != types.Object(v)) {
+							continue
+						}
+						rhs := y.Rhs[0]
+						if i < len(y.Rhs) {
+							rhs = y.Rhs[i]
+						}
+						if rhs != e && tainted(rhs, fd, depth+1) {
+							hit = true
+						}
+					}
+				case *ast.RangeStmt:
+					for _, kv := range []ast.Expr{y.Key, y.Value} {
+						if lid, ok := kv.(*ast.Ident); ok && info.Defs[lid] == types.Object(v) && tainted(y.X, fd, depth+1) {
+							hit = true
+						}
+					}
+				case *ast.ValueSpec:
+					for i, nm := range y.Names {
+						if info.Defs[nm] == types.Object(v) && i < len(y.Values) && tainted(y.Values[i], fd, depth+1) {
+							hit = true
+						}
+					}
+				}
+				return !hit
+			})
+			return !hit
+		})
+		return hit
+	}
+	var hits []string
+	nf := 0
+	for _, f := range pk.Syntax {
+		name := l.Prog.Fset.File(f.Pos()).Name()
+		if strings.HasSuffix(name, "_test.go") || strings.HasSuffix(name, "gorums_bundle.go") {
+			continue
+		}
+		for _, d := range f.Decls {
+			fd, ok := d.(*ast.FuncDecl)
+			if !ok || fd.Body == nil || fd.Name.Name == "init" {
+				continue
+			}
+			nf++
+			ast.Inspect(fd.Body, func(nd ast.Node) bool {
+				switch x := nd.(type) {
+				case *ast.AssignStmt:
+					if x.Tok == token.DEFINE {
+						return true
+					}
+					for i, lhs := range x.Lhs {
+						if v := rootVar(lhs); v != nil {
+							dep := tainted(lhs, fd, 0)
+							if i < len(x.Rhs) {
+								dep = dep || tainted(x.Rhs[i], fd, 0)
+							} else if len(x.Rhs) == 1 {
+								dep = dep || tainted(x.Rhs[0], fd, 0)
+							}
+							if dep {
+								hits = append(hits, fmt.Sprintf("%s: %s writes package-level %s with a value that depends on the file being generated", l.Prog.Pos(x.Pos()), fd.Name.Name, v.Name()))
+							}
+						}
+					}
+				case *ast.IncDecStmt:
+					if v := rootVar(x.X); v != nil {
+						hits = append(hits, fmt.Sprintf("%s: %s updates package-level %s", l.Prog.Pos(x.Pos()), fd.Name.Name, v.Name()))
+					}
+				case *ast.CallExpr:
+					if id, ok := x.Fun.(*ast.Ident); ok && (id.Name == "delete" || id.Name == "clear") && len(x.Args) >= 1 {
+						if _, isB := info.Uses[id].(*types.Builtin); isB {
+							if v := rootVar(x.Args[0]); v != nil {
+								hits = append(hits, fmt.Sprintf("%s: %s removes from package-level %s", l.Prog.Pos(x.Pos()), fd.Name.Name, v.Name()))
+							}
+						}
+					}
+				}
+				return true
+			})
+		}
+	}
+	sort.Strings(hits)
+	l.Check(len(hits) == 0, "C16-Y2", "generator/process-state", token.NoPos, fmt.Sprintf("%d generator functions scanned: no input-dependent write to a package-level variable", nf),
+		fmt.Sprintf("generation writes package-level state, which survives from one file of a protoc invocation to the next - the output for a file depends on the files generated before it: %v", hits))
 }
 
 // ---------------------------------------------------------------------------
@@ -746,13 +970,23 @@ func rejectFormula(g *gen.Generator) ([]gen.Formula, error) {
 	return rejectOfBody(g, fd.Body.List, 0)
 }
 
-// rejectOfBody lifts a validator body - guard clauses returning an error, a
-// tagless switch of such cases, delegation to other validators of the package
-// (`if err := v(m); err != nil { return err }`, `return v(m)`), a final
-// `return nil` - into the list of conditions under which it rejects.
+// rejectOfBody lifts a loop-free validator body into the condition under which
+// it returns a non-nil error, by symbolic evaluation: every statement list has
+// a rejection condition R and a fall-through condition F. Understood: return
+// nil / return <error> / return v(m), if-else chains, tagless switches,
+// `if err := v(m); err != nil { return err }`, blocks; v is another validator
+// of the package (one parameter, result error).
 func rejectOfBody(g *gen.Generator, list []ast.Stmt, depth int) ([]gen.Formula, error) {
-	if depth > 4 {
-		return nil, fmt.Errorf("validators nested too deeply")
+	r, _, err := evalValidator(g, list, depth)
+	if err != nil {
+		return nil, err
+	}
+	return []gen.Formula{r}, nil
+}
+
+func evalValidator(g *gen.Generator, list []ast.Stmt, depth int) (rej, fall gen.Formula, err error) {
+	if depth > 6 {
+		return nil, nil, fmt.Errorf("validators nested too deeply")
 	}
 	validatorOf := func(e ast.Expr) *ast.FuncDecl {
 		ce, ok := ast.Unparen(e).(*ast.CallExpr)
@@ -769,79 +1003,112 @@ func rejectOfBody(g *gen.Generator, list []ast.Stmt, depth int) ([]gen.Formula, 
 		}
 		return fd
 	}
-	var out []gen.Formula
+	rej, fall = gen.Const(false), gen.Const(true)
+	seq := func(r2, f2 gen.Formula) {
+		rej = gen.Or(rej, gen.And(fall, r2))
+		fall = gen.And(fall, f2)
+	}
 	for _, st := range list {
 		switch x := st.(type) {
-		case *ast.SwitchStmt:
-			if x.Tag != nil || x.Init != nil {
-				return nil, fmt.Errorf("validateOptions: switch with a tag")
+		case *ast.ReturnStmt:
+			if len(x.Results) != 1 {
+				return nil, nil, fmt.Errorf("validator returns %d values", len(x.Results))
 			}
-			for _, cc := range x.Body.List {
-				c := cc.(*ast.CaseClause)
-				if !returnsError(c.Body) {
-					return nil, fmt.Errorf("validateOptions: a case does not return an error")
+			if fd := validatorOf(x.Results[0]); fd != nil {
+				r, _, err := evalValidator(g, fd.Body.List, depth+1)
+				if err != nil {
+					return nil, nil, err
 				}
-				for _, e := range c.List {
-					f, err := g.ParseFormula(e)
-					if err != nil {
-						return nil, err
-					}
-					out = append(out, f)
-				}
+				seq(r, gen.Const(false))
+			} else if types.ExprString(x.Results[0]) == "nil" {
+				seq(gen.Const(false), gen.Const(false))
+			} else {
+				seq(gen.Const(true), gen.Const(false))
 			}
+			return rej, fall, nil
+		case *ast.BlockStmt:
+			r, f, err := evalValidator(g, x.List, depth)
+			if err != nil {
+				return nil, nil, err
+			}
+			seq(r, f)
 		case *ast.IfStmt:
 			// delegation: if err := v(m); err != nil { return err }
 			if as, ok := x.Init.(*ast.AssignStmt); ok && x.Else == nil && len(as.Lhs) == 1 && len(as.Rhs) == 1 {
 				if fd := validatorOf(as.Rhs[0]); fd != nil && types.ExprString(x.Cond) == types.ExprString(as.Lhs[0])+" != nil" && returnsError(x.Body.List) {
-					sub, err := rejectOfBody(g, fd.Body.List, depth+1)
+					r, _, err := evalValidator(g, fd.Body.List, depth+1)
 					if err != nil {
-						return nil, err
+						return nil, nil, err
 					}
-					out = append(out, sub...)
+					seq(r, gen.Not(r))
 					continue
 				}
 			}
-			if x.Init != nil || !returnsError(x.Body.List) {
-				return nil, fmt.Errorf("validateOptions: unsupported if form")
+			if x.Init != nil {
+				return nil, nil, fmt.Errorf("validateOptions: if with an init statement that is not a validator call")
 			}
-			f, err := g.ParseFormula(x.Cond)
+			c, err := g.ParseFormula(x.Cond)
 			if err != nil {
-				return nil, err
+				return nil, nil, err
 			}
-			out = append(out, f)
+			ra, fa, err := evalValidator(g, x.Body.List, depth)
+			if err != nil {
+				return nil, nil, err
+			}
+			rb, fb := gen.Formula(gen.Const(false)), gen.Formula(gen.Const(true))
 			if x.Else != nil {
-				// else-if chain of further guards
-				rest, err := rejectOfBody(g, []ast.Stmt{x.Else}, depth)
+				rb, fb, err = evalValidator(g, []ast.Stmt{x.Else}, depth)
 				if err != nil {
-					return nil, err
+					return nil, nil, err
 				}
-				out = append(out, rest...)
 			}
-		case *ast.BlockStmt:
-			rest, err := rejectOfBody(g, x.List, depth)
-			if err != nil {
-				return nil, err
+			seq(gen.Or(gen.And(c, ra), gen.And(gen.Not(c), rb)), gen.Or(gen.And(c, fa), gen.And(gen.Not(c), fb)))
+		case *ast.SwitchStmt:
+			if x.Tag != nil || x.Init != nil {
+				return nil, nil, fmt.Errorf("validateOptions: switch with a tag")
 			}
-			out = append(out, rest...)
-		case *ast.ReturnStmt:
-			if len(x.Results) == 1 {
-				if fd := validatorOf(x.Results[0]); fd != nil {
-					sub, err := rejectOfBody(g, fd.Body.List, depth+1)
-					if err != nil {
-						return nil, err
-					}
-					out = append(out, sub...)
+			r, f := gen.Formula(gen.Const(false)), gen.Formula(gen.Const(false))
+			none := gen.Formula(gen.Const(true)) // no earlier case matched
+			var deflt *ast.CaseClause
+			for _, cc := range x.Body.List {
+				c := cc.(*ast.CaseClause)
+				if c.List == nil {
+					deflt = c
 					continue
 				}
+				var cond gen.Formula = gen.Const(false)
+				for _, e := range c.List {
+					fe, err := g.ParseFormula(e)
+					if err != nil {
+						return nil, nil, err
+					}
+					cond = gen.Or(cond, fe)
+				}
+				rc, fc, err := evalValidator(g, c.Body, depth)
+				if err != nil {
+					return nil, nil, err
+				}
+				r = gen.Or(r, gen.And(gen.And(none, cond), rc))
+				f = gen.Or(f, gen.And(gen.And(none, cond), fc))
+				none = gen.And(none, gen.Not(cond))
 			}
-			if len(x.Results) != 1 || types.ExprString(x.Results[0]) != "nil" {
-				return nil, fmt.Errorf("validateOptions: final return is not nil")
+			rd, fd := gen.Formula(gen.Const(false)), gen.Formula(gen.Const(true))
+			if deflt != nil {
+				var err error
+				rd, fd, err = evalValidator(g, deflt.Body, depth)
+				if err != nil {
+					return nil, nil, err
+				}
 			}
+			r = gen.Or(r, gen.And(none, rd))
+			f = gen.Or(f, gen.And(none, fd))
+			seq(r, f)
+		case *ast.EmptyStmt:
 		default:
-			return nil, fmt.Errorf("validateOptions: unsupported statement %T", st)
+			return nil, nil, fmt.Errorf("validateOptions: unsupported statement %T", st)
 		}
 	}
-	return out, nil
+	return rej, fall, nil
 }
 
 func returnsError(body []ast.Stmt) bool {
